@@ -175,6 +175,14 @@ def sc_scaling(V, P, cfg):
             P.eq("y[%d]" % k, y, s_exp * approx, kind="scaled-output")
             P.eq("undamped[%d]" % k, yu, true, kind="undamped-exact")
             s_prev = s_exp
+        if k == 0:
+            # an optimisation loop seeds, back-propagates and resets between two responses: the damped recurrence
+            # carries over (Module.reset() clears sensitivities, nothing else)
+            m.sig_out[0].sensitivity = V.real("w_between", default=1.0)
+            m.sensitivity()
+            m.reset()
+        elif k == 1:
+            m.reset()
     return obs
 
 
@@ -307,6 +315,9 @@ def replay(cfg, label, env, case):
         must_keep = band & (x > lo_thr) & (x < hi_thr)
         must_drop = ~band | (x < lo_thr) | (x > hi_thr)
         bad = bool(np.any(must_keep & ~sel) or np.any(must_drop & sel))
+        if mode == "amt" and nl + nu <= n:
+            # whatever the tie-break: exactly nl lowest and nu highest entries are removed
+            bad = bad or int(np.sum(sel)) != n - nl - nu
         n_removed_by_rank = int(np.sum(band & ~sel))
         max_rank_removed = int(np.sum(band[order[:nl]])) + int(np.sum(band[order[n - nu:]])) if (nl + nu) > 0 else 0
         return dict(reproduced=bad, detail=dict(x=x.tolist(), kw={k: float(v) for k, v in kw.items()}, sel=sel.tolist(),
